@@ -183,6 +183,7 @@ Box::Box(bool user_mem, int prefill) {
         cfg.dsp_memory = user_memory.data();
     }
     t = std::make_unique<Teakra::Teakra>(cfg);
+    raw_mem = t->GetDspMemory();
 }
 
 void Box::install_callbacks() {
